@@ -24,6 +24,7 @@ import (
 	"fmt"
 	"io"
 	"io/ioutil"
+	"sort"
 )
 
 type Directory struct {
@@ -147,6 +148,21 @@ func ReadWithDirectory(r io.ReaderAt, size int64, cd []byte) (*Directory, error)
 			return nil, errors.New("missing ZIP64 header")
 		}
 		files = append(files, f)
+	}
+	// note what follows each member: the next member, or the directory
+	offsets := make([]uint64, 0, len(files)+1)
+	for _, f := range files {
+		offsets = append(offsets, f.Offset)
+	}
+	if dirLoc > 0 {
+		offsets = append(offsets, uint64(dirLoc))
+	}
+	sort.Slice(offsets, func(i, j int) bool { return offsets[i] < offsets[j] })
+	for _, f := range files {
+		i := sort.Search(len(offsets), func(i int) bool { return offsets[i] > f.Offset })
+		if i < len(offsets) {
+			f.next = int64(offsets[i])
+		}
 	}
 	d := &Directory{
 		File:   files,
